@@ -2,6 +2,7 @@ package c16
 
 import (
 	"crypto"
+	"reflect"
 	"fmt"
 	"regexp"
 	"sync"
@@ -72,6 +73,9 @@ func checkCopyRR(c recCase) error {
 	}
 	shape, mut := mutableShape(c.R)
 	pbt.Note([]byte(shape), mut, "type:"+typeName(c.R.Type))
+	// an emptied or pre-allocated slice (length 0, capacity > 0) must not be shared either: a later
+	// append on one side would write into the other
+	roomy(rr)
 	cp := dns.Copy(rr)
 	if snap(cp) != snap(rr) {
 		return pbt.Errf("Copy(%s) differs from the original: %s", typeName(c.R.Type), diffAt(snap(cp), snap(rr)))
@@ -92,6 +96,36 @@ func checkCopyRR(c recCase) error {
 		return pbt.Errf("writing through the original %s changed its copy: %s", typeName(c.R.Type), diffAt(after, before))
 	}
 	return nil
+}
+
+// roomy replaces every empty []byte / []uint16 / []string reachable from rr (options and SvcParams
+// included) by an empty slice with spare capacity.
+func roomy(v any) {
+	var walk func(x reflect.Value)
+	walk = func(x reflect.Value) {
+		switch x.Kind() {
+		case reflect.Interface, reflect.Pointer:
+			if !x.IsNil() {
+				walk(x.Elem())
+			}
+		case reflect.Struct:
+			for i := 0; i < x.NumField(); i++ {
+				walk(x.Field(i))
+			}
+		case reflect.Slice:
+			if x.Len() == 0 && x.CanSet() {
+				switch x.Type().Elem().Kind() {
+				case reflect.Uint8, reflect.Uint16, reflect.String:
+					x.Set(reflect.MakeSlice(x.Type(), 0, 8))
+				}
+				return
+			}
+			for i := 0; i < x.Len(); i++ {
+				walk(x.Index(i))
+			}
+		}
+	}
+	walk(reflect.ValueOf(v))
 }
 
 func genRec(t *rapid.T) recCase {
@@ -340,8 +374,13 @@ func checkSign(c signCase) error {
 	key, priv := signKey()
 	_, mut := mutableShape(c.Recs[0])
 	pbt.Note([]byte(snap(rrset)), mut || len(rrset) > 1, "type:"+typeName(c.Recs[0].Type), fmt.Sprintf("rrset=%d", len(rrset)))
+	// the signer name is written the way a zone file might spell it (mixed case): Verify must not "tidy" it
+	signer := "eXamPle."
+	if len(c.Recs)%2 == 0 {
+		signer = key.Hdr.Name
+	}
 	sig := &dns.RRSIG{Hdr: dns.RR_Header{Name: rrset[0].Header().Name, Rrtype: dns.TypeRRSIG, Class: rrset[0].Header().Class, Ttl: 300},
-		Algorithm: dns.ED25519, SignerName: key.Hdr.Name, KeyTag: key.KeyTag(), Inception: 1700000000, Expiration: 1800000000}
+		Algorithm: dns.ED25519, SignerName: signer, KeyTag: key.KeyTag(), Inception: 1700000000, Expiration: 1800000000}
 	before, kbefore := snap(rrset), snap(key)
 	if err := sig.Sign(priv, rrset); err != nil {
 		return nil // not signable (e.g. class mismatch with the key); nothing to observe
@@ -360,7 +399,20 @@ func checkSign(c signCase) error {
 	if after := snap(sig); after != sbefore {
 		return pbt.Errf("RRSIG.Verify changed the RRSIG: %s", diffAt(after, sbefore))
 	}
-	_ = err
+	if err != nil {
+		return pbt.Errf("RRSIG.Verify of a signature just made (signer name %q, key owner %q) failed: %v", signer, key.Hdr.Name, err)
+	}
+	// a failing Verify (other key tag) is read-only too
+	bad := *sig
+	bad.KeyTag++
+	bbefore := snap(&bad)
+	_ = bad.Verify(key, rrset)
+	if after := snap(&bad); after != bbefore {
+		return pbt.Errf("a failing RRSIG.Verify changed the RRSIG: %s", diffAt(after, bbefore))
+	}
+	if after := snap(rrset); after != before {
+		return pbt.Errf("a failing RRSIG.Verify changed the RRset: %s", diffAt(after, before))
+	}
 	return nil
 }
 
